@@ -530,6 +530,12 @@ fn eval_func_expr(
     context: &mut model::Context,
 ) -> error::Result<model::Value> {
     let (local_part, _, uri) = context.expanded_name(func.name())?;
+    // A default namespace of the expression context is for element names: an unprefixed
+    // function name is a core function.
+    let uri = match func.name() {
+        nom::model::QName::Unprefixed(_) => None,
+        _ => uri,
+    };
 
     let table = func::table();
     let entry = table
@@ -1087,6 +1093,12 @@ fn equal_qname(
 ) -> error::Result<bool> {
     if let Some((local_part_a, _, uri_a)) = node.as_expanded_name()? {
         let (local_part_b, _, uri_b) = context.expanded_name(qname)?;
+        // A default namespace of the expression context applies to element names only.
+        let uri_b = match (qname, &node) {
+            (nom::model::QName::Unprefixed(_), dom::XmlNode::Element(_)) => uri_b,
+            (nom::model::QName::Unprefixed(_), _) => None,
+            _ => uri_b,
+        };
         Ok(local_part_a == local_part_b && uri_a == uri_b)
     } else {
         Ok(false)
